@@ -114,8 +114,17 @@ def oracle(ctx, ev, r, tm):
     lists_of(ev.result, lists)
     for path, lst in lists:
         if not hasattr(lst, "gengy_labeled"):
-            continue
+            if type(lst) is list:
+                r.count("plain_lists_that_cannot_carry_labels")
+                continue
+            # a container type that can carry labels (GengyList) left unlabelled, e.g. an empty one
+            r.add_violation(Violation(PROP, P.site_of(ev), "label:list-container-unlabelled", {"op": ev.op, "empty": len(lst) == 0},
+                                      {"unit": P.clean_unit(ctx.unit), "choices": list(ev.choices), "path": path, "program": R.show(tm)[:300]},
+                                      f"{ctx.spec['name']}: list {R.show(R.term(lst))[:60]} at {path} ({type(lst).__name__}) carries no labels"))
+            break
         r.count("labelled_lists_checked")
+        if len(lst) == 0:
+            r.count("empty_lists_checked")
         want = container_labels(lst, ctx.g)
         got = (getattr(lst, "gengy_nodes", None), getattr(lst, "gengy_distance_to_term", None), getattr(lst, "gengy_weighted_nodes", None))
         ttw = getattr(lst, "gengy_types_this_way", {}) or {}
